@@ -1873,6 +1873,9 @@ class FDE:
                 return self._apply(env[n], args, kwargs, e)
             if n in env and isinstance(env[n], Obj) and env[n].cls in self.repo.classes and self.repo.resolve(env[n].cls, '__call__') is not None:
                 return self._invoke(self.repo.resolve(env[n].cls, '__call__'), [env[n]] + args, kwargs)
+            if n in self.repo.classes and n not in env and n in self.stubs and n not in self.constructors and self.stub is not None:
+                self.effects.append(('call', n, None, tuple(args), tuple(sorted(kwargs.items(), key=lambda kv: kv[0]))))
+                return self.stub(n, None, args, kwargs)       # a class of the package the rule replaces by a stand-in
             if n in self.repo.classes and n not in env and n in self.constructors:
                 self.effects.append(('instantiate', n, tuple(args), tuple(sorted(kwargs.items(), key=lambda kv: kv[0]))))
                 return self._construct_standin(n, args, kwargs)       # a rule supplies the object this construction yields
